@@ -30,14 +30,46 @@ def run(ctx: Ctx):
     col.floor("g5_pairs", col.counts.get("g5_pairs", 0), 4)
     # (x, lens, left_pad, right_pad, mode) at the two kernel call sites: left/right are transposable
     for f, want in ((pv, {"x": "x", "lens": "lens", "left_pad": "pad[0]", "right_pad": "pad[1]", "mode": "mode"}),
-                    (cbs, {"x": "x", "lens": "lens", "left_pad": "left_pad", "right_pad": "right_pad", "mode": "mode"})):
+                    (cbs, {"x": "x", "lens": "lens", "left_pad": "<left>", "right_pad": "<right>", "mode": "mode"})):
         calls = [c for c in own_calls(f.node) if call_name(c) == "_get_padding_buffers"]
         if len(calls) != 1:
             raise AnalysisError(f"C09: {f.qualname} does not call _get_padding_buffers exactly once")
         b = bind_args(calls[0], gpb, False)
         got = {p.name: u(a) for p, a, _ in b.pairs}
+        if f is cbs:
+            # roles by dataflow: left pad = max(-start, 0), right pad = max(end - lens, 0) with (start, end) the two
+            # columns of `slices`
+            rdc = ReachingDefs(f.node)
+
+            def role(e):
+                if not isinstance(e, ast.Name):
+                    return u(e)
+                ds = [d for d in rdc.defs_of(e) if d.kind == "assign"]
+                if len(ds) != 1:
+                    return u(e)
+                v = u(ds[0].value)
+                cols = {}
+                for d2 in rdc.defs:
+                    if d2.kind in ("assign", "unpack") and d2.value is not None:
+                        vv = d2.value
+                        if isinstance(vv, ast.Tuple) and d2.slot is None:
+                            continue
+                        txt = u(vv)
+                        if "slices[..., 0]" in txt and (d2.slot in (None, (0,))):
+                            cols[d2.name] = "start"
+                        if "slices[..., 1]" in txt and (d2.slot in (None, (1,))):
+                            cols.setdefault(d2.name, "end")
+                for nm, r_ in cols.items():
+                    v = v.replace(nm, r_.upper())
+                if v.startswith("(-START).clamp_min_(0)"):
+                    return "<left>"
+                if v.startswith("(END - lens).clamp_min_(0)"):
+                    return "<right>"
+                return v
+            got["left_pad"], got["right_pad"] = role(b.arg_for("left_pad")), role(b.arg_for("right_pad"))
         col.ob("G1", "S1", f"{rel}::{f.qualname}::_get_padding_buffers-binding", got == want,
-               f"{f.name} calls the buffer kernel with {got}, expected {want}", rel, calls[0].lineno, sample=got)
+               f"{f.name} calls the buffer kernel with {got}, expected {want} (left pad = max(-start, 0), right pad = "
+               f"max(end - lens, 0))", rel, calls[0].lineno, sample=got)
         # the two returned buffers are scattered on their own sides
         st = None
         pm = parent_map(f.node)
@@ -61,22 +93,16 @@ def run(ctx: Ctx):
         col.ob("G2", "S1", f"{rel}::{f.qualname}::buffers-scattered-on-own-side", okl and okr,
                f"left buffer scattered under `{sides.get('left')}`, right buffer under `{sides.get('right')}`", rel,
                st.lineno, sample=sides)
-    # chunk_by_slices: left pad from a negative start, right pad from an end beyond the length
-    rd = ReachingDefs(cbs.node)
-    defs = {d.name: d.value for d in rd.defs if d.kind == "assign" and d.name in ("left_pad", "right_pad") and d.value is not None}
-    okpads = "left_pad" in defs and u(defs["left_pad"]).startswith("(-start).clamp_min_(0)") and \
-        "right_pad" in defs and u(defs["right_pad"]).startswith("(end - lens).clamp_min_(0)")
-    col.ob("G12", "S1", f"{rel}::chunk_by_slices::pad-amounts", okpads,
-           f"left/right pad amounts are {u(defs.get('left_pad'))} / {u(defs.get('right_pad'))}; expected "
-           f"max(-start, 0) and max(end - lens, 0) (empty slices masked to 0)", rel, cbs.line)
     # random_shift -> pad_variable
     calls = [c for c in own_calls(rs.node) if call_name(c) == "pad_variable"]
     col.floor("random_shift_pad_calls", len(calls), 1)
     for c in calls:
         b = bind_args(c, pv, False)
         got = {p.name: u(a) for p, a, _ in b.pairs}
+        padname = got.get("pad")
+        got["pad"] = "<pad>"
         col.ob("G1", "S1", f"_img.py::random_shift::pad_variable-binding",
-               got == {"x": "input", "lens": "in_lens", "pad": "pad", "mode": "mode", "value": "value"},
+               got == {"x": "input", "lens": "in_lens", "pad": "<pad>", "mode": "mode", "value": "value"},
                f"random_shift pads with {got}", "_img.py", c.lineno, sample=got)
 
     # ---- S2 pad-mode tables -------------------------------------------------------------------------------
@@ -152,7 +178,7 @@ def run(ctx: Ctx):
     # ---- S4 random pad amounts: trunc(u * prop * len), u in [0, 1) -----------------------------------------------
     steps = []
     for n in own_nodes(rs.node):
-        if isinstance(n, (ast.Assign, ast.AugAssign)) and u(n.targets[0] if isinstance(n, ast.Assign) else n.target) == "pad":
+        if isinstance(n, (ast.Assign, ast.AugAssign)) and u(n.targets[0] if isinstance(n, ast.Assign) else n.target) == padname:
             steps.append(n)
     steps.sort(key=lambda n: n.lineno)
     shape = []
@@ -165,7 +191,7 @@ def run(ctx: Ctx):
         elif isinstance(n, ast.AugAssign) and isinstance(n.op, ast.Mult) and isinstance(n.value, ast.Call) \
                 and call_name(n.value) in ("torch.rand_like", "torch.rand"):
             shape.append("*=rand")
-        elif isinstance(n, ast.Assign) and u(n.value) == "pad.long()":
+        elif isinstance(n, ast.Assign) and u(n.value) == f"{padname}.long()":
             shape.append("long")
         else:
             shape.append(u(n)[:40])
@@ -173,12 +199,24 @@ def run(ctx: Ctx):
            f"the pad amounts are built by {shape}; expected (left, right) = trunc(u * prop * len) with u in [0, 1), "
            f"which bounds each side by prop * len and keeps it a non-negative whole number", "_img.py",
            steps[0].lineno if steps else rs.line, sample=shape)
-    lens_def = [d.value for d in rdr.defs if d.name == "in_lens_" and d.value is not None]
-    col.ob("G12", "S4", "_img.py::random_shift::len-source", len(lens_def) == 1 and u(lens_def[0]) == "in_lens.float()",
-           "the proportion is not applied to in_lens", "_img.py", rs.line)
-    ol = [d.value for d in rdr.defs if d.name == "out_lens" and d.value is not None]
-    col.ob("G12", "S4", "_img.py::random_shift::out_lens=in_lens+pad.sum(0)", len(ol) == 1 and u(ol[0]) == "in_lens + pad.sum(0)",
-           f"reported output lengths are `{u(ol[0]) if ol else None}`", "_img.py", rs.line)
+    # the proportion is applied to in_lens (through a float copy)
+    lsrc = None
+    for n in steps:
+        if isinstance(n, ast.Assign) and isinstance(n.value, ast.Call) and call_name(n.value) == "torch.stack":
+            els = n.value.args[0].elts if isinstance(n.value.args[0], (ast.List, ast.Tuple)) else []
+            if els and isinstance(els[0], ast.BinOp) and isinstance(els[0].right, ast.Name):
+                ds = list(rdr.defs_of(els[0].right))
+                lsrc = u(ds[0].value) if len(ds) == 1 and ds[0].value is not None else None
+    col.ob("G12", "S4", "_img.py::random_shift::len-source", lsrc == "in_lens.float()",
+           f"the proportion is applied to `{lsrc}`, not to in_lens", "_img.py", rs.line)
+    # reported output lengths: the second returned value on the training path = in_lens + pad.sum(0)
+    tr = [n for n in own_nodes(rs.node) if isinstance(n, ast.Return) and isinstance(n.value, ast.Tuple) and n not in idret]
+    olv = None
+    if tr and isinstance(tr[0].value.elts[1], ast.Name):
+        ds = list(rdr.defs_of(tr[0].value.elts[1]))
+        olv = u(ds[0].value) if len(ds) == 1 and ds[0].value is not None else None
+    col.ob("G12", "S4", "_img.py::random_shift::out_lens=in_lens+pad.sum(0)", olv == f"in_lens + {padname}.sum(0)",
+           f"reported output lengths are `{olv}`", "_img.py", rs.line)
     # prop validated non-negative (and < 1 for reflect) by the Module
     init = pkg.func("_img::RandomShift.__init__")
     txt = " ".join(u(n) for n in own_nodes(init.node) if isinstance(n, (ast.If, ast.Call)))
@@ -242,7 +280,7 @@ def _mutants():
         M("pad-no-rand", I, "pad *= torch.rand_like(pad)", "pad *= 1 + torch.rand_like(pad)", "pad=trunc(rand*prop*len)"),
         M("props-swapped", I, "pad = torch.stack([prop[0] * in_lens_, prop[1] * in_lens_])", "pad = torch.stack([prop[1] * in_lens_, prop[0] * in_lens_])", "pad=trunc(rand*prop*len)"),
         M("out-lens-one-side", I, "out_lens = in_lens + pad.sum(0)", "out_lens = in_lens + pad[0]", "out_lens"),
-        M("right-pad-from-start", P, "right_pad = (end - lens).clamp_min_(0).masked_fill_(empty, 0)", "right_pad = (end - start).clamp_min_(0).masked_fill_(empty, 0)", "pad-amounts"),
+        M("right-pad-from-start", P, "right_pad = (end - lens).clamp_min_(0).masked_fill_(empty, 0)", "right_pad = (end - start).clamp_min_(0).masked_fill_(empty, 0)", "_get_padding_buffers-binding"),
         M("twin:rename-left-max", P, "left_max", "lmax", "", -1, twin=True),
     ]
 
